@@ -246,10 +246,15 @@ def ch_e2e(ctx, cases=None) -> Channel:
     import segwalk
     import mp4walk
     ch = Channel("vod_e2e", rule=(
-        "every template x {vod, odvod} it supports x streams bbb, tears, syn1..syn5 (syn4: audio timing reference of 7.151746 s; syn5: fragments numbered from 0) x option subsets: every "
-        "enumerated segment fetched (all numbers startNumber..startNumber+N-1, all timeline entries, all "
-        "SegmentList ranges) plus the one past the end; statuses, decode times, durations, payloads and byte "
-        "ranges checked against the stored files; non-trivial = fetched media segment/range; distinct by (url, rep, value)"))
+        "every template x {vod, odvod} it supports x streams bbb, tears, syn1..syn10, bbbd, synshort, synlong, synday, "
+        "synbig, sy$n (fractional audio reference, fragments numbered from 0, first decode time 8 s, NTSC, two "
+        "segments, stored defaults incl. a DRM selection, audio two segments shorter/longer than the reference, longer "
+        "than a day, default sample durations, large segments, a $ in the directory) x option subsets, after live "
+        "manifests of the same stream; history: every static manifest of synmut, a media file deleted, the same URLs "
+        "again; every enumerated segment fetched (all numbers startNumber..startNumber+N-1, all timeline entries, all "
+        "SegmentList ranges) plus the one past the end; statuses, decode times, durations, payloads and byte ranges "
+        "checked against the stored files; every listed Representation must be stored; non-trivial = fetched media "
+        "segment/range; distinct by (url, rep, value)"))
     app = segchecks.get_app()
     client = app.client()
     rng = ctx.rng("vod_e2e")
